@@ -9,7 +9,10 @@
 (* (returned handler / error, C array read through lib.entry, counter of   *)
 (* the touched handler, time returned by ListScheduler) are *clauses*: a   *)
 (* mismatch is recorded in `viol' with line and clause name and the trace  *)
-(* continues, so one verdict covers the whole trace.                       *)
+(* continues, so one verdict covers the whole trace.  Clauses about the    *)
+(* representation (array, counters, which of several tied handlers) are    *)
+(* marked "transcription:" -- they say that Heap.tla no longer transcribes *)
+(* the code, not that C06 is violated; the harness reports them as notes.  *)
 (***************************************************************************)
 EXTENDS Heap, Json, IOUtils, TLCExt
 
@@ -22,12 +25,14 @@ Has(e, f) == f \in DOMAIN e
 ArrOf(G) == [i \in 1 .. (IF G.len > 0 THEN G.len - 1 ELSE 0) |-> <<G.a[i].q, G.a[i].r, G.a[i].h, G.a[i].c>>]
 
 Clauses(e) ==
-    (IF Has(e, "arr") /\ ArrOf(H') # e.arr THEN {<<l, "C array differs from model">>} ELSE {})
-    \cup (IF Has(e, "len") /\ H'.len # e.len THEN {<<l, "heap length differs from model">>} ELSE {})
-    \cup (IF Has(e, "mv") /\ minValid'[e.h] # e.mv THEN {<<l, "_minimal_valid_counter differs from model">>} ELSE {})
+    (IF Has(e, "arr") /\ ArrOf(H') # e.arr THEN {<<l, "transcription: C array differs from model">>} ELSE {})
+    \cup (IF Has(e, "len") /\ H'.len # e.len THEN {<<l, "transcription: heap length differs from model">>} ELSE {})
+    \cup (IF Has(e, "mv") /\ minValid'[e.h] # e.mv THEN {<<l, "transcription: _minimal_valid_counter differs from model">>} ELSE {})
     \cup (IF e.op = "get" /\ op'.err # e.err THEN {<<l, "get: error/no-error differs from model">>} ELSE {})
     \cup (IF e.op = "get" /\ op'.err = "none" /\ e.err = "none" /\ op'.h # e.ret
-          THEN {<<l, "get: returned handler differs from model">>} ELSE {})
+          THEN {<<l, "transcription: get returned another handler than the model (tie)">>} ELSE {})
+    \cup (IF e.op = "get" /\ op'.err = "none" /\ e.err = "none" /\ live'[e.ret] # op'.t
+          THEN {<<l, "get: the returned handler has no live event with the minimal time">>} ELSE {})
     \cup (IF e.op = "get" /\ op'.err = "none" /\ Has(e, "lt") /\ op'.t # e.lt
           THEN {<<l, "get: ListScheduler returned another time than the model">>} ELSE {})
     \cup (IF e.op = "get" /\ ~GetReturnsLiveMinimal' THEN {<<l, "get: model itself returns a non-minimal event">>} ELSE {})
